@@ -34,7 +34,12 @@ fn members(ev: &LogEvent) -> Vec<(String, String)> {
     out
 }
 fn drain(rx: &Receiver<LogEvent>) -> Vec<Vec<(String, String)>> { let mut v = Vec::new(); while let Ok(e) = rx.try_recv() { v.push(members(&e)); } v }
-fn keys(m: &[(String, String)]) -> Vec<String> { m.iter().map(|x| x.0.clone()).filter(|k| k != "time" && k != "time_ns").collect() }
+/// the tag members in their order (the fixed members time / level / time_ns may stand anywhere: C17 fixes their presence only)
+fn keys(m: &[(String, String)]) -> Vec<String> {
+    let mut v: Vec<String> = m.iter().map(|x| x.0.clone()).filter(|k| k != "time" && k != "time_ns" && k != "level").collect();
+    if m.iter().filter(|x| x.0 == "level").count() == 1 { v.insert(0, "level".to_string()); }
+    v
+}
 fn get<'a>(m: &'a [(String, String)], k: &str) -> Option<&'a str> { m.iter().find(|x| x.0 == k).map(|x| x.1.as_str()) }
 fn request(method: &str, path: &str, body: RequestBody) -> Request {
     Request { id: 7, remote_addr: "127.0.0.1:9".parse().unwrap(), method: method.to_string(), url: url_of(path), headers: servlin::HeaderList::new(),
